@@ -488,12 +488,14 @@ Definition add_section (s : sec) (e : elf) : elf :=
 (* --- keep-debug (objcopy --only-keep-debug): the contents of sections the DWARF reader
        never asks for are dropped — the section becomes SHT_NOBITS and what lies at its
        offset is arbitrary.  A name the reader asks for: one of the slot names or its legacy
-       spelling; the link carrier and relocation sections are kept as well.  (objcopy also
+       spelling; the link carrier, relocation sections, symbol and string tables are kept as well.  (objcopy also
        empties .eh_frame, which IS a slot: that part of its output is not an invariance.) --- *)
 Definition observed (n : list Z) : bool :=
   name_in n slot_names || name_in n (map zname slot_names).
+(* symbol and string tables stay too: applying a relocation section (C08) reads them *)
+Definition is_symstr (s : sec) : bool := (s_type s =? 2) || (s_type s =? 3) || (s_type s =? 11).
 Definition kept (s : sec) : bool :=
-  observed (s_name s) || bytes_eqb (s_name s) n_debuglink || is_reloc_sec s.
+  observed (s_name s) || bytes_eqb (s_name s) n_debuglink || is_reloc_sec s || is_symstr s.
 Definition keep_debug_sec (fill : nat -> list Z) (i : nat) (s : sec) : sec :=
   if kept s then s
   else mkSec (s_name s) SHT_NOBITS (s_flags s) (s_addr s) (s_offset s) (s_size s) (s_link s) (s_info s) (fill i).
